@@ -14,7 +14,7 @@ from . import dbcommon as C, walindex as W
 
 ID = "C17"
 LEAN_MODULES = ["SqliteDissect.Properties.C17", "SqliteDissect.Properties.C17Step", "SqliteDissect.Properties.C17WalIndex",
-                "SqliteDissect.Properties.GenHeader"]
+                "SqliteDissect.Properties.GenHeader", "SqliteDissect.Properties.GenPage"]
 TRANSLATORS = [pyfun]
 TRUSTED_EXTRA = [pyfun.TRUSTED]
 RULE = ("100-byte strings obtained from valid headers (one per factory database) by perturbing every field with "
